@@ -1,10 +1,131 @@
-import JP.Driver
-import JP.Impl.Den
+import JP.Lemmas.TextTree
+import JP.Lemmas.TextUtf8Tree
+import JP.Lemmas.TextUnq
 
-/-! # Property C17 — theorems (see DESIGN.md §6) -/
+/-!
+# C17 — codec round trips (text layer)
 
-namespace JP
-namespace C17
+The boundary theorems behind property C17: the encoder's string spelling is always a valid
+body, decodes back to the source string when that is valid UTF-8, is free of raw
+HTML-sensitive bytes when escaping is on; the rune codec round-trips; the printer/parser pair
+round-trips on well-formed trees (B3); marshalling a dynamic value and reading the text back
+gives the value.  Proofs are in `JP/Lemmas/Text*.lean`.
+-/
 
-end C17
-end JP
+namespace JP.C17
+open JP
+
+/-! ### runes -/
+
+/-- decoding the encoding of a scalar value gives the value and the length of its encoding -/
+theorem encodeRune_decodeRune (r : Nat) (hr : isScalar r) (rest : Bytes) :
+    decodeRune (encodeRune r ++ rest) = (r, (encodeRune r).length) :=
+  JP.decodeRune_encodeRune r hr rest
+
+example : isScalar 0x1F600 ∧ isScalar 0x2028 ∧ isScalar 0xE9 := by simp [isScalar]
+
+/-- conversely: where the input is not rejected at its first rune, re-encoding the decoded rune gives
+back exactly the bytes consumed, the rune is a scalar value, and its decoding only depends on those bytes -/
+theorem decodeRune_reencode (b : UInt8) (rest : Bytes)
+    (h : ¬ ((decodeRune (b :: rest)).1 = runeError ∧ (decodeRune (b :: rest)).2 = 1)) :
+    encodeRune (decodeRune (b :: rest)).1 = (b :: rest).take (decodeRune (b :: rest)).2
+    ∧ isScalar (decodeRune (b :: rest)).1
+    ∧ (decodeRune (b :: rest)).2 ≤ (b :: rest).length
+    ∧ ∀ t', decodeRune ((b :: rest).take (decodeRune (b :: rest)).2 ++ t') = decodeRune (b :: rest) :=
+  JP.encodeRune_decodeRune b rest h
+
+example : ¬ ((decodeRune [0xF0, 0x9F, 0x98, 0x80, 65]).1 = runeError ∧ (decodeRune [0xF0, 0x9F, 0x98, 0x80, 65]).2 = 1) := by
+  decide
+
+/-! ### quote / unquote (B7) -/
+
+theorem unquote_quoteBody (e : Bool) (s : Bytes) (hs : isValidUtf8 s = true) : unquote (quoteBody e s) = s :=
+  JP.unquote_quoteBody e s hs
+
+-- "h é < U+2028 \n \" U+1F600"
+example : isValidUtf8 [104, 0xC3, 0xA9, 60, 0xE2, 0x80, 0xA8, 10, 34, 0xF0, 0x9F, 0x98, 0x80] = true := by decide
+
+/-- always a valid body, even for invalid UTF-8 (replaced by `\\ufffd`) -/
+theorem quoteBody_valid (e : Bool) (s : Bytes) :
+    parseStrBody (quoteBody e s ++ [34]) = some (quoteBody e s, []) :=
+  JP.quoteBody_valid e s
+
+theorem quoteBody_clean (s : Bytes) : hasRawHtml (quoteBody true s) = false :=
+  JP.quoteBody_clean s
+
+/-- the escape switch changes the spelling only, for every source string -/
+theorem unquote_quoteBody_switch (e : Bool) (s : Bytes) : unquote (quoteBody e s) = unquote (quoteBody false s) :=
+  JP.unquote_quoteBody_indep e s
+
+/-- the encoder always writes valid UTF-8 -/
+theorem quoteBody_utf8 (e : Bool) (s : Bytes) : isValidUtf8 (quoteBody e s) = true :=
+  JP.isValidUtf8_quoteBody e s
+
+/-- behind the validity gate the decoder never fails: `unquote`'s default `[]` is never used -/
+theorem unquoteBody_valid (b : Bytes) (hb : parseStrBody (b ++ [34]) = some (b, [])) :
+    unquoteBody b = some (unquote b) :=
+  JP.unquoteBody_valid b hb
+
+-- a lone high surrogate followed by a pair, then raw bytes that are not UTF-8
+example : parseStrBody ([92, 117, 100, 56, 48, 48, 92, 117, 100, 56, 51, 100, 92, 117, 100, 101, 48, 48, 0xFF, 0xC3] ++ [34])
+    = some ([92, 117, 100, 56, 48, 48, 92, 117, 100, 56, 51, 100, 92, 117, 100, 101, 48, 48, 0xFF, 0xC3], []) := by decide
+
+/-! ### printer / parser (B3) -/
+
+theorem parse_print (c : Cst) (hc : WFC c) (hd : c.depth ≤ maxDepth) : parseCst (Cst.print c) = some c :=
+  JP.parse_print c hc hd
+
+example : WFC (.obj [([97, 92, 110], .arr [.lit [45, 49, 46, 53], .str [92, 117, 48, 48, 101, 57], .lit [110, 117, 108, 108], .arr []])]) = true
+    ∧ (Cst.obj [([97, 92, 110], .arr [.lit [45, 49, 46, 53], .str [92, 117, 48, 48, 101, 57], .lit [110, 117, 108, 108], .arr []])]).depth ≤ maxDepth := by
+  decide
+
+/-! ### dynamic values -/
+
+theorem roundtrip (e : Bool) (v : Value) (hv : StrsUtf8 v) (hn : NumsValid v) :
+    (Impl.marshalAnyE e v).valueOf = v :=
+  JP.roundtrip e v hv hn
+
+theorem marshal_wfc (e : Bool) (v : Value) (hn : NumsValid v) : WFC (Impl.marshalAnyE e v) :=
+  JP.marshal_wfc e v hn
+
+theorem escape_switch_only_spelling (v : Value) :
+    (Impl.marshalAnyE true v).valueOf = (Impl.marshalAnyE false v).valueOf :=
+  JP.escape_switch_only_spelling v
+
+-- {"ké": [-1.5, "<\n", null, true]}
+example : StrsUtf8 (.obj [([107, 0xC3, 0xA9], .arr [.num [45, 49, 46, 53], .str [60, 10], .null, .bool true])]) = true
+    ∧ NumsValid (.obj [([107, 0xC3, 0xA9], .arr [.num [45, 49, 46, 53], .str [60, 10], .null, .bool true])]) = true := by
+  decide
+
+/-- marshal, print, parse, evaluate: the value comes back -/
+theorem parse_print_marshal (e : Bool) (v : Value) (hv : StrsUtf8 v) (hn : NumsValid v)
+    (hd : (Impl.marshalAnyE e v).depth ≤ maxDepth) :
+    parseValueOf (Cst.print (Impl.marshalAnyE e v)) = some v := by
+  simp only [parseValueOf, JP.parse_print _ (JP.marshal_wfc e v hn) hd, Option.map_some, JP.roundtrip e v hv hn]
+
+example : (Impl.marshalAnyE true (.obj [([107, 0xC3, 0xA9], .arr [.num [45, 49, 46, 53], .str [60, 10], .null, .bool true])])).depth ≤ maxDepth := by
+  decide
+
+/-- the marshalled text is always valid UTF-8 (number literals being valid numbers) -/
+theorem print_marshal_utf8 (e : Bool) (v : Value) (hn : NumsValid v) :
+    isValidUtf8 (Cst.print (Impl.marshalAnyE e v)) = true :=
+  JP.isValidUtf8_print _ (JP.marshal_wfc e v hn) (JP.CstUtf8_marshal e v)
+
+end JP.C17
+
+/-
+#print axioms JP.C17.encodeRune_decodeRune
+#print axioms JP.C17.decodeRune_reencode
+#print axioms JP.C17.unquote_quoteBody
+#print axioms JP.C17.quoteBody_valid
+#print axioms JP.C17.quoteBody_clean
+#print axioms JP.C17.unquote_quoteBody_switch
+#print axioms JP.C17.quoteBody_utf8
+#print axioms JP.C17.parse_print
+#print axioms JP.C17.roundtrip
+#print axioms JP.C17.marshal_wfc
+#print axioms JP.C17.escape_switch_only_spelling
+#print axioms JP.C17.parse_print_marshal
+#print axioms JP.C17.unquoteBody_valid
+#print axioms JP.C17.print_marshal_utf8
+-/
